@@ -36,6 +36,9 @@ impl log::Log for Cap {
 
     fn log(&self, record: &log::Record) {
         RECORDS.fetch_add(1, Ordering::Relaxed);
+        if std::env::var_os("VERIF_LOG_STDERR").is_some() && record.target().starts_with("trusttunnel") {
+            eprintln!("[{} {}] {}", record.level(), record.target(), record.args());
+        }
         let cs = CANARIES.lock().unwrap_or_else(|e| e.into_inner());
         if cs.is_empty() {
             return;
